@@ -20,6 +20,20 @@ fn main() {
                 println!("{} [{}] {}", s.id, s.level, names.join(", "));
             }
         }
+        "worker" => {
+            if args.len() < 3 {
+                usage();
+            }
+            if let Some(spec) = props::spec_for(&args[1]) {
+                for c in &spec.checks {
+                    if c.name() == args[2] && c.serve_worker() {
+                        std::process::exit(0);
+                    }
+                }
+            }
+            eprintln!("no isolated check {}/{}", args[1], args[2]);
+            std::process::exit(2);
+        }
         "replay" => {
             if args.len() < 2 {
                 usage();
